@@ -602,6 +602,18 @@ func (r *collection) addService(service any, lifetime Lifetime, opts ...AddOptio
 	// For result objects, we only register each field as a separate service
 	// They all share the same constructor and will be created together
 	if info.IsResultObject {
+		// The fields of a result object carry their own name and group tags:
+		// options for "the value the constructor produces" do not apply, and
+		// dropping them silently would leave the caller with a registration
+		// other than the one asked for
+		if options.Name != "" || options.Group != "" || len(options.As) > 0 {
+			return &RegistrationError{
+				ServiceType: descriptor.Type,
+				Operation:   "validate options",
+				Cause:       fmt.Errorf("godi.Name, godi.Group and godi.As cannot be used with a constructor that returns a result object: tag its fields instead"),
+			}
+		}
+
 		// No fields to register
 		if len(descriptor.resultFields) == 0 {
 			return nil
@@ -649,6 +661,18 @@ func (r *collection) addService(service any, lifetime Lifetime, opts ...AddOptio
 
 		// If we have multiple non-error returns, register each as a separate service
 		if len(nonErrorReturns) > 1 {
+			// godi.As names the interfaces of "the value the constructor produces";
+			// with several values it is not applied, so it is refused rather than
+			// silently dropped (the aliases would not be registered, the concrete
+			// types would)
+			if len(options.As) > 0 {
+				return &RegistrationError{
+					ServiceType: descriptor.Type,
+					Operation:   "validate options",
+					Cause:       fmt.Errorf("godi.As cannot be used with a constructor that returns several services"),
+				}
+			}
+
 			family := make([]*Descriptor, 0, len(nonErrorReturns))
 			for i, ret := range nonErrorReturns {
 				// Create a descriptor for each return type
